@@ -76,6 +76,7 @@ var c07FullLeaves = []*xnode{
 	leafB("bt", true), leafB("bf", false),
 	{text: "li", val: xval{k: kLI, n: 3}}, {text: "ls", val: xval{k: kLS, n: 2}}, {text: "m", val: xval{k: kM, n: 1}},
 	{text: "ct()", val: xval{k: kB, b: true}, call: 1}, {text: "cf()", val: xval{k: kB, b: false}, call: 2},
+	{text: "[1, 2, 3]", val: xval{k: kLI, n: 3}}, {text: "[\"a\", \"b\"]", val: xval{k: kLS, n: 2}},
 }
 
 var c07SmallLeaves = []*xnode{leafI("2", 2), leafI("i0", 0), leafF("0.5", 0.5), leafB("bt", true), leafS(`"a"`, "a")}
@@ -838,7 +839,7 @@ func init() {
 			return a + b + r
 		},
 		Run: c07Run,
-		Rule: "expression trees over {+ - * / % ^ == != < <= > >= in and or, unary - and not}: exhaustively all trees of depth <= 2 over 27 leaves (int/float/string/bool literals and variables incl. uint8, negative and zero values, lists, a map, counting calls), " +
+		Rule: "expression trees over {+ - * / % ^ == != < <= > >= in and or, unary - and not}: exhaustively all trees of depth <= 2 over 29 leaves (int/float/string/bool literals and variables incl. uint8, negative and zero values, lists, a map, counting calls), " +
 			"all (thorough) or every 16th (quick, offset by seed) depth-3 tree over 5 leaves, plus kind-directed random trees of depth <= 8; each printed with minimal parentheses for the property's precedence table in a canonical and in random layouts (spacing, and/&&, or/||, not/!, !=/<>, quote style), in {{ }} and in {% if %}; " +
 			"an independent evaluator of the tree gives the expected value / error / number of calls of the counting functions (short-circuit). Trees outside the judged fragment (kind mismatches, overflow, NaN) are counted as unjudged. distinct_nontrivial = distinct judged trees.",
 		MinNontriv:  1000,
